@@ -15,7 +15,10 @@ ASSUMPTIONS = ['stories have a storyID and items an itemID; durations / times th
                '(float() and dateutil are oracles supplied per case); states are reached by merges that insert, append or replace '
                'stories with or without timing metadata']
 
-TIMES = ['2020-01-01T10:00:00', '2021-06-30 23:59:59', '2020-01-01T10:00:00+01:00', '1 Jan 2020 10:00', None]
+TIMES = ['2020-01-01T10:00:00', '2021-06-30 23:59:59', '2020-01-01T10:00:00+01:00', '1 Jan 2020 10:00', None,
+         # day and month that can be confused (day <= 12, day != month), fractions of a second, a trailing Z
+         '2022-11-06T12:30:00', '03/04/2021 08:00', '2021-02-03 04:05:06.789', '2022-05-04T00:00:00Z']
+TIME_TEXTS = [t for t in TIMES if t]
 DURS = ['0', '1', '2.5', '10.125', '0.0', '3600', '7.875', '100.25', '0.1', '0.2', '12.34', '59.999999', '0.000001', '1e2', ' 7.3 ', '1799.99']
 
 
@@ -36,9 +39,9 @@ def rich_story(rng, sid, timing=None):
     elif timing == 'media':
         pl.append(E('MediaTime', text=rng.choice(DURS)))
     if rng.random() < 0.25:
-        pl.append(E('StoryStarted', text=rng.choice(TIMES[:4])))
+        pl.append(E('StoryStarted', text=rng.choice(TIME_TEXTS)))
     if rng.random() < 0.25:
-        pl.append(E('StoryEnded', text=rng.choice(TIMES[:4])))
+        pl.append(E('StoryEnded', text=rng.choice(TIME_TEXTS)))
     body = []
     for j in range(rng.randrange(0, 4)):
         r = rng.random()
@@ -212,7 +215,7 @@ def held_objects(tier, rng):
                     from docs import ro_replace, metadata_replace
                     d = rng.choice([ro_replace(70 + step, [rich_story(rng, x) for x in (sids[:2] + ['RR%d_%d' % (h, step)])]),
                                     ro_replace(70 + step, [rich_story(rng, 'RS%d_%d' % (h, step))]),
-                                    metadata_replace(70 + step, [E('roSlug', text='replaced %d' % step), E('roEdStart', text=rng.choice(TIMES[:4]))])])
+                                    metadata_replace(70 + step, [E('roSlug', text='replaced %d' % step), E('roEdStart', text=rng.choice(TIME_TEXTS))])])
                 t = to_text(d)
                 msgs.append(t)
                 try:
